@@ -142,6 +142,15 @@ AllocateLostWrite(c, u, tx) ==
   /\ UNCHANGED <<perm, chan, resv, veto>>
   /\ out' = {}
 
+(* An Allocate (no LIFETIME, family or token) for which the relay address generator has no port (range exhausted,   *)
+(* bind error): answered with an error, and nothing is left behind -- the next Allocate of the 5-tuple starts    *)
+(* from scratch (it is not answered 437, and nothing is counted).                                               *)
+AllocateNoPort(c, u, tx) ==
+  /\ ~Live(c) /\ u \notin QuotaDenied /\ ~(u \in QuotaOne /\ \E x \in Clients : alloc[x].live /\ alloc[x].user = u)
+  /\ last' = [a |-> "AllocateNoPort", c |-> c, u |-> u, tx |-> tx]
+  /\ UNCHANGED state
+  /\ out' = {Err(c, "Allocate", 0)}
+
 (* handleRefreshRequest.  rf: REQUESTED-ADDRESS-FAMILY (0 = absent).        *)
 Refresh(c, u, lr, rf) ==
   /\ last' = [a |-> "Refresh", c |-> c, u |-> u, lr |-> lr, rf |-> rf]
@@ -302,6 +311,7 @@ Next ==
   \/ \E c \in Clients, p \in Peers, pay \in Pays, len \in Lens : PeerData(c, p, pay, len)
   \/ \E c \in StreamClients : ConnClose(c)
   \/ \E c \in Clients, u \in Users, tx \in Txids : AllocateLostWrite(c, u, tx)
+  \/ \E c \in Clients, u \in Users, tx \in Txids : AllocateNoPort(c, u, tx)
   \/ \E d \in Jumps : Advance(d)
   \/ \E c \in Clients, i \in PeerIPs : Veto(c, i)
 
@@ -314,7 +324,7 @@ View == state
 TypeOK ==
   /\ \A c \in Clients : alloc[c].live => /\ alloc[c].user \in Users
                                          /\ alloc[c].fam \in {4, 6}
-                                         /\ alloc[c].rem \in 1..MaxLife
+                                         /\ alloc[c].rem \in 1..(IF DefaultLife > MaxLife THEN DefaultLife ELSE MaxLife)
   /\ \A c \in Clients, i \in PeerIPs : perm[c][i] \in 0..PermTO
   /\ \A c \in Clients, n \in ChanNums : chan[c][n].bound => chan[c][n].rem \in 1..ChanTO
 
